@@ -28,6 +28,11 @@ pub struct Heap {
 
 impl Drop for Heap {
     fn drop(&mut self) {
+        #[cfg(feature = "verif_hooks")]
+        if unsafe { self.inner.verif_drop() } {
+            return;
+        }
+
         if !self.inner.ptr.is_null() {
             unsafe {
                 let layout =
@@ -54,10 +59,23 @@ struct InnerHeap {
     ///
     /// Must be equal to zero when `ptr.is_null()`.
     byte_cap: usize,
+
+    /// Size of the managed physical allocation (0 = not managed by the hooks).
+    #[cfg(feature = "verif_hooks")]
+    verif_phys: usize,
+
+    /// Highest logical capacity so far; `[verif_hw, verif_phys)` holds the canary.
+    #[cfg(feature = "verif_hooks")]
+    verif_hw: usize,
 }
 
 impl InnerHeap {
     unsafe fn grow(&mut self) -> bool {
+        #[cfg(feature = "verif_hooks")]
+        if let Some(result) = unsafe { self.verif_grow() } {
+            return result;
+        }
+
         let new_cap = if self.byte_cap == 0 {
             256 * 256 * 8
         } else {
@@ -571,6 +589,10 @@ impl Heap {
                 ptr: ptr::null_mut(),
                 byte_len: 0,
                 byte_cap: 0,
+                #[cfg(feature = "verif_hooks")]
+                verif_phys: 0,
+                #[cfg(feature = "verif_hooks")]
+                verif_hw: 0,
             },
             resource_err_loc: None,
         }
@@ -616,6 +638,10 @@ impl Heap {
                     ptr,
                     byte_len: 0,
                     byte_cap: heap_index!(cap),
+                    #[cfg(feature = "verif_hooks")]
+                    verif_phys: 0,
+                    #[cfg(feature = "verif_hooks")]
+                    verif_hw: 0,
                 },
                 // pstr_vec: bitvec![],
                 resource_err_loc: None,
@@ -1004,6 +1030,8 @@ impl Heap {
     pub(crate) fn truncate(&mut self, cell_offset: usize) {
         self.inner.byte_len = heap_index!(cell_offset);
         // self.pstr_vec.truncate(cell_offset);
+        #[cfg(feature = "verif_hooks")]
+        self.inner.verif_on_truncate();
     }
 }
 
@@ -1207,4 +1235,193 @@ pub(crate) fn to_local_code_ptr(heap: &Heap, addr: HeapCellValue) -> Option<usiz
             None
         }
     )
+}
+
+/// Hook code of the verification harness: managed allocations with a canary
+/// guard region past the logical capacity, growth policies and injected
+/// growth failures. See `crate::machine::verif_hooks`.
+#[cfg(feature = "verif_hooks")]
+mod verif_impl {
+    use super::*;
+    use crate::machine::verif_hooks as vh;
+
+    const CANARY: u8 = 0xA5;
+    const MIN_GUARD: usize = 64;
+
+    fn layout(size: usize) -> alloc::Layout {
+        alloc::Layout::from_size_align(size.max(8), size_of::<HeapCellValue>()).unwrap()
+    }
+
+    impl InnerHeap {
+        #[inline]
+        fn verif_guard(&self) -> usize {
+            self.verif_phys - self.verif_hw
+        }
+
+        /// First offset (relative to `verif_hw`) in `[verif_hw, verif_hw + limit)`
+        /// that no longer holds the canary.
+        fn verif_scan(&self, limit: usize) -> Option<usize> {
+            if self.verif_phys == 0 || self.ptr.is_null() {
+                return None;
+            }
+
+            let len = self.verif_guard().min(limit);
+            let guard = unsafe { std::slice::from_raw_parts(self.ptr.add(self.verif_hw), len) };
+
+            guard.iter().position(|b| *b != CANARY)
+        }
+
+        fn verif_check_on_event(&mut self, event: &str) {
+            if let Some(off) = self.verif_scan(4096) {
+                vh::record_guard_violation(format!(
+                    "{event}: byte {off} past capacity {} overwritten (len {})",
+                    self.verif_hw, self.byte_len
+                ));
+
+                // re-arm the canary so that one overflow is counted once
+                let guard = self.verif_guard();
+                unsafe { ptr::write_bytes(self.ptr.add(self.verif_hw), CANARY, guard) };
+            }
+        }
+
+        /// Re-home the heap in a managed allocation with logical capacity
+        /// `new_cap` (>= `byte_len`) and at least `guard` canary bytes.
+        unsafe fn verif_rehome(&mut self, new_cap: usize, guard: usize, slack: usize) -> bool {
+            let guard = guard.max(MIN_GUARD);
+            let new_hw = new_cap;
+            let new_phys = new_cap + slack + guard;
+            let new_ptr = unsafe { alloc::alloc(layout(new_phys)) };
+
+            if new_ptr.is_null() {
+                return false;
+            }
+
+            unsafe {
+                if !self.ptr.is_null() {
+                    let keep = self.byte_cap.min(new_cap);
+                    ptr::copy_nonoverlapping(self.ptr, new_ptr, keep);
+
+                    let old_size = if self.verif_phys != 0 {
+                        self.verif_phys
+                    } else {
+                        self.byte_cap
+                    };
+
+                    alloc::dealloc(self.ptr, layout(old_size));
+                }
+
+                ptr::write_bytes(new_ptr.add(new_hw), CANARY, new_phys - new_hw);
+            }
+
+            self.ptr = new_ptr;
+            self.byte_cap = new_cap;
+            self.verif_phys = new_phys;
+            self.verif_hw = new_hw;
+
+            true
+        }
+
+        pub(super) unsafe fn verif_grow(&mut self) -> Option<bool> {
+            let ctl = vh::heap_ctl();
+
+            if !ctl.active && self.verif_phys == 0 {
+                return None;
+            }
+
+            if ctl.active && vh::grow_attempt_should_fail() {
+                return Some(false);
+            }
+
+            let production = !ctl.active || ctl.policy == vh::GrowPolicy::Production;
+
+            if self.verif_phys == 0 && production && ctl.guard_bytes == 0 {
+                return None;
+            }
+
+            let new_cap = match ctl.policy {
+                vh::GrowPolicy::Exact(step) if ctl.active => {
+                    self.byte_cap + heap_index!(step.max(1))
+                }
+                vh::GrowPolicy::Small(init) if ctl.active && self.byte_cap == 0 => {
+                    init.next_multiple_of(8).max(8)
+                }
+                _ if self.byte_cap == 0 => 256 * 256 * 8,
+                _ => 2 * self.byte_cap,
+            };
+
+            self.verif_check_on_event("grow");
+
+            if self.verif_phys != 0 && new_cap + MIN_GUARD.max(ctl.guard_bytes) <= self.verif_phys {
+                // extend in place; the bytes that become capacity still hold the canary
+                self.byte_cap = new_cap;
+                self.verif_hw = self.verif_hw.max(new_cap);
+                return Some(true);
+            }
+
+            let guard = if self.verif_phys != 0 {
+                ctl.guard_bytes.max(4096)
+            } else {
+                ctl.guard_bytes
+            };
+
+            // under exact-fit keep physical slack so that most attempts extend in place
+            let slack = match ctl.policy {
+                vh::GrowPolicy::Exact(_) if ctl.active => new_cap.max(4096),
+                _ => 0,
+            };
+
+            Some(unsafe { self.verif_rehome(new_cap, guard, slack) })
+        }
+
+        pub(super) unsafe fn verif_drop(&mut self) -> bool {
+            if self.verif_phys == 0 {
+                return false;
+            }
+
+            if !self.ptr.is_null() {
+                self.verif_check_on_event("drop");
+                unsafe { alloc::dealloc(self.ptr, layout(self.verif_phys)) };
+            }
+
+            true
+        }
+
+        pub(super) fn verif_on_truncate(&mut self) {
+            if self.verif_phys != 0 {
+                let ctl = vh::heap_ctl();
+
+                if ctl.active && ctl.shrink_on_truncate {
+                    self.byte_cap = self.byte_len;
+                }
+            }
+        }
+    }
+
+    impl Heap {
+        pub(crate) fn verif_adopt(&mut self, guard_bytes: usize, tight: bool) {
+            let inner = &mut self.inner;
+
+            if inner.ptr.is_null() {
+                return;
+            }
+
+            inner.verif_check_on_event("adopt");
+
+            let new_cap = if tight { inner.byte_len } else { inner.byte_cap };
+            let slack = if tight { inner.byte_cap.max(4096) } else { 0 };
+
+            unsafe {
+                inner.verif_rehome(new_cap, guard_bytes, slack);
+            }
+        }
+
+        /// Offset past the high-water capacity of the first overwritten guard byte.
+        pub(crate) fn verif_guard_violation(&self) -> Option<usize> {
+            self.inner.verif_scan(usize::MAX)
+        }
+
+        pub(crate) fn verif_byte_cap(&self) -> usize {
+            self.inner.byte_cap
+        }
+    }
 }
